@@ -1,10 +1,13 @@
 #!/usr/bin/env python
-"""Native battery for C02 (PROV-XML round trip preserves every document exactly).  Bounded; see roundtrip.py."""
+"""Native battery for C02 (PROV-XML round trip preserves every document exactly).  Bounded; see roundtrip.py.
+Features excluded as the property excludes them: attribute names given as full URIs (their compaction need not
+be an NCName), carriage returns in strings."""
 import os
 import sys
 
 sys.path.insert(0, os.path.dirname(os.path.abspath(__file__)))
+import common  # noqa: E402
 import roundtrip  # noqa: E402
 
 if __name__ == "__main__":
-    sys.exit(roundtrip.run("C02", "xml", None))
+    sys.exit(roundtrip.run("C02", "xml", common.Gen.ALL - {"full-uri-name", "cr"}))
